@@ -161,13 +161,20 @@ impl RefNet {
     pub fn edges_csv(&self, extra_cols: bool) -> String {
         let mut s = String::new();
         if extra_cols {
-            s.push_str("edge_id,src_vertex_id,dst_vertex_id,road_class,distance,grade\n");
+            s.push_str("tag,edge_id,src_vertex_id,dst_vertex_id,road_class,distance,grade\n");
         } else {
             s.push_str("edge_id,src_vertex_id,dst_vertex_id,distance\n");
         }
         for (i, e) in self.edges.iter().enumerate() {
             if extra_cols {
-                s.push_str(&format!("{},{},{},{},{:?},{}\n", i, e.src, e.dst, i % 5, e.len_m, 0));
+                // a leading free-text column: plain words, words starting with '#', quoted text with a comma
+                let tag = match i % 4 {
+                    0 => "main".to_string(),
+                    1 => format!("#hov{i}"),
+                    2 => format!("\"ramp, {i}\""),
+                    _ => String::new(),
+                };
+                s.push_str(&format!("{},{},{},{},{},{:?},{}\n", tag, i, e.src, e.dst, i % 5, e.len_m, 0));
             } else {
                 s.push_str(&format!("{},{},{},{:?}\n", i, e.src, e.dst, e.len_m));
             }
@@ -190,8 +197,16 @@ impl RefNet {
             let line = match perm % 4 {
                 0 => format!("{},{:?},{:?}", i, x, y),
                 1 => format!("{:?},{:?},{}", y, x, i),
-                2 => format!("v{},{:?},{},{},{:?}", i, x, i, 1000 + i, y),
-                _ => format!("{},z{},{:?},{:?},c", i, i % 3, y, x),
+                2 => {
+                    let name = match i % 4 {
+                        0 => format!("v{i}"),
+                        1 => format!("#{i} gate"),
+                        2 => format!("\"stop, {i}\""),
+                        _ => format!("-{i}"),
+                    };
+                    format!("{},{:?},{},{},{:?}", name, x, i, 1000 + i, y)
+                }
+                _ => format!("{},z{},{:?},{:?},{}", i, i % 3, y, x, if i % 2 == 0 { "#checked" } else { "c" }),
             };
             s.push_str(&line);
             s.push('\n');
